@@ -123,3 +123,82 @@ def backend_state_roles(fb):
         if len(v) == 1:
             out[k] = next(iter(v))
     return out
+
+
+# ---------------------------------------------------------------------------------------------------------------------
+# Received-file count classes.  A request arrives with `files: Option<Vec<File>>`; the classes are
+#   'none' (no ancillary data), 0 (Some(empty)), 1 (exactly one), 2 (two or more).
+# `file_classes` returns the classes that remain feasible under a set of must-atoms.  Atoms it does not understand
+# exclude nothing (so the answer is a superset of the truly feasible classes: a rule demanding "only {none, 0}" or
+# "only {1}" is sound).
+FILE_CLASSES = ("none", 0, 1, 2)
+
+
+def _is_files(t, pname):
+    from vlint.gates import root_of
+    r = root_of(t)
+    while r[0] in ("down", "unwrap"):
+        r = root_of(r[1])
+    return r[0] == "param" and r[2] == pname
+
+
+def _cmp3(op, n, k):
+    """three-valued `n op k` where n == 2 stands for 'two or more'."""
+    if n != 2:
+        return {"Eq": n == k, "Ne": n != k, "Lt": n < k, "Le": n <= k, "Gt": n > k, "Ge": n >= k}[op]
+    if op == "Eq":
+        return None if k >= 2 else False
+    if op == "Ne":
+        return None if k >= 2 else True
+    if op in ("Gt", "Ge"):
+        return True if k <= (1 if op == "Gt" else 2) else None
+    if op in ("Lt", "Le"):
+        return False if k <= (2 if op == "Lt" else 1) else None
+    return None
+
+
+FLIP = {"Eq": "Eq", "Ne": "Ne", "Lt": "Gt", "Le": "Ge", "Gt": "Lt", "Ge": "Le"}
+
+
+def file_classes(fb, sym, atoms, pname="files", single=("take_single_file",)):
+    from vlint.absint import const_eval
+    feas = set(FILE_CLASSES)
+    for a in atoms:
+        k = a[0]
+        if k in ("ok", "notok"):
+            t = a[1]
+            if t[0] == "call" and t[1] in single and t[2] and _is_files(t[2][0], pname):
+                if k == "ok":
+                    feas &= {1}
+                continue
+            if t[0] == "param" and t[2] == pname or (t[0] in ("ref", "deref") and _is_files(t, pname) and
+                                                      not any(s[0] == "call" for s in _walk(t))):
+                feas &= ({0, 1, 2} if k == "ok" else {"none"})
+        elif k == "variant":
+            t, names, comp = a[1], a[2], a[3]
+            if _is_files(t, pname) and not any(s[0] == "call" for s in _walk(t)):
+                some = ("Some" in names) != comp
+                none = ("None" in names) != comp
+                if some and not none:
+                    feas &= {0, 1, 2}
+                elif none and not some:
+                    feas &= {"none"}
+        elif k in ("true", "false"):
+            t = a[1]
+            if t[0] == "call" and t[1] == "is_empty" and t[2] and _is_files(t[2][0], pname):
+                feas &= ({"none", 0} if k == "true" else {"none", 1, 2})
+        elif k == "cmp":
+            op, l, r = a[1], a[2], a[3]
+            for x, y, o in ((l, r, op), (r, l, FLIP.get(op))):
+                if o and x[0] == "call" and x[1] == "len" and x[2] and _is_files(x[2][0], pname):
+                    kv = const_eval(fb, sym, y)
+                    if isinstance(kv, int):
+                        for c in (0, 1, 2):
+                            if c in feas and _cmp3(o, c, kv) is False:
+                                feas.discard(c)
+    return feas
+
+
+def _walk(t):
+    from vlint.terms import subterms
+    return subterms(t)
